@@ -42,7 +42,7 @@ class GwRig:
 class EzspRig:
     HIGH = ("readCounters", "nop", "readAndClearCounters")
     MID = ("getNodeId", "getEui64x")
-    LOW = ("sendUnicast",)
+    LOW = ("sendUnicast", "sendMulticast", "sendBroadcast")
 
     def __init__(self, loop, version):
         import bellows.ezsp
@@ -114,7 +114,7 @@ class EzspRig:
                 return int(result[0])
             if name in ("readCounters", "readAndClearCounters"):
                 return int(result[0][0])
-            if name == "sendUnicast":
+            if name in ("sendUnicast", "sendMulticast", "sendBroadcast"):
                 return int(result[1])
             if name == "stackStatusHandler":
                 return int(result[0]) & 0xFF
@@ -134,7 +134,7 @@ class EzspRig:
             ty = list(rx.values())[0]
             n = getattr(ty, "_length", None) or len(t.EmberCounterType)
             return [[val] + [0] * (n - 1)]
-        if name == "sendUnicast":
+        if name in ("sendUnicast", "sendMulticast", "sendBroadcast"):
             st = list(rx.values())[0]
             return [st(0), val]
         if name == "stackStatusHandler":
@@ -171,6 +171,15 @@ class EzspRig:
                                           options=t.EmberApsOption.APS_OPTION_RETRY, groupId=0, sequence=c & 0xFF)
                     r = await self.ezsp.send_unicast(nwk=t.NWK(0x1234), aps_frame=aps, message_tag=c & 0xFF, data=b"x")
                     val = int(r[1])
+                elif cmd in ("sendMulticast", "sendBroadcast"):
+                    aps = t.EmberApsFrame(profileId=260, clusterId=6, sourceEndpoint=1, destinationEndpoint=1,
+                                          options=t.EmberApsOption.APS_OPTION_NONE, groupId=0x1234, sequence=c & 0xFF)
+                    if cmd == "sendMulticast":
+                        r = await self.ezsp.send_multicast(aps_frame=aps, radius=3, non_member_radius=3, message_tag=c & 0xFF, data=b"y")
+                    else:
+                        r = await self.ezsp.send_broadcast(address=t.BroadcastAddress.ALL_DEVICES, aps_frame=aps, radius=3, message_tag=c & 0xFF,
+                                                           aps_sequence=c & 0xFF, data=b"z")
+                    val = int(r[1])
                 elif cmd in ("getNodeId", "readCounters", "readAndClearCounters", "nop"):
                     r = await getattr(self.ezsp, cmd)()
                     val = self._val(cmd, list(r))
@@ -206,7 +215,7 @@ class EzspRig:
 
     async def frame(self, seq, cmd, val, modes=(), raw=None, kind="frame"):
         self.gw.modes = list(modes)
-        if raw is None and cmd not in ("getNodeId", "readCounters", "readAndClearCounters", "sendUnicast", "stackStatusHandler"):
+        if raw is None and cmd not in ("getNodeId", "readCounters", "readAndClearCounters", "sendUnicast", "sendMulticast", "sendBroadcast", "stackStatusHandler"):
             val = 0                           # no payload slot that could carry a token
         data = raw if raw is not None else self.helper.encode(self.layout, seq, cmd, self.values_for(cmd, val))
         raised = 0
